@@ -610,3 +610,40 @@ func (c *Case) Bubble(fn func()) bub.Outcome {
 func (r *Runner) Unique(namespace, signature string, values ...string) {
 	r.write(rec{"t": "unique", "ns": namespace, "sig": signature, "values": values}, false)
 }
+
+// Stuck implements the two-dump rule for real-time (non-bubble) cases: two
+// goroutine dumps are taken `gap` apart; if the blocked sets are identical the
+// process made no progress in between and calls that have not returned are
+// hung. It returns whether the dumps were identical and the second dump.
+func Stuck(gap time.Duration) (same bool, dump string) {
+	d1 := dumpAll()
+	time.Sleep(gap)
+	d2 := dumpAll()
+	return stripDump(d1) == stripDump(d2), clip(d2, 40000)
+}
+
+// StuckIn is Stuck restricted to the goroutines whose stack mentions one of
+// the given function-name fragments (the calls under judgement and the
+// goroutines they wait for): background tickers of unrelated goroutines do not
+// count as progress.
+func StuckIn(gap time.Duration, fragments ...string) (same bool, dump string) {
+	pick := func(d string) string {
+		var keep []string
+		for _, blk := range strings.Split(stripDump(d), "\n\n") {
+			for _, f := range fragments {
+				if strings.Contains(blk, f) {
+					// drop argument values and addresses: they do not change while blocked, but pc offsets are kept
+					keep = append(keep, blk)
+					break
+				}
+			}
+		}
+		sort.Strings(keep)
+		return strings.Join(keep, "\n\n")
+	}
+	d1 := dumpAll()
+	time.Sleep(gap)
+	d2 := dumpAll()
+	p1, p2 := pick(d1), pick(d2)
+	return p1 != "" && p1 == p2, clip(p2, 40000)
+}
